@@ -271,7 +271,7 @@ func c04(c *orch.Ctx) (*report.Result, error) {
 			}
 			return p
 		},
-		rule: "projects drawn from the 'security' profile: all presence combinations of method-level / controller-level / configured default security, 1-3 alternatives each, 0-3 scopes, repeated schemes, hidden routes, enforceSecurityOnAllRoutes on in ~40%; every 4th project names an undeclared scheme at method, controller or default level. Per route a three-way comparison: effective alternatives from the descriptor (DESIGN A.2) vs paths.*.*.security in the 3.0.0 and 3.1.0 documents vs the SecurityCheckList literal parsed (go/parser) from the generated gin routes file; components.securitySchemes vs the configuration; exit status and written files vs the enforce flag and the undeclared-scheme plants. distinct = distinct (controller-level, method-level, default) security shape triples per route",
+		rule:   "projects drawn from the 'security' profile: all presence combinations of method-level / controller-level / configured default security, 1-3 alternatives each, 0-3 scopes, repeated schemes, hidden routes, enforceSecurityOnAllRoutes on in ~40%; every 4th project names an undeclared scheme at method, controller or default level. Per route a three-way comparison: effective alternatives from the descriptor (DESIGN A.2) vs paths.*.*.security in the 3.0.0 and 3.1.0 documents vs the SecurityCheckList literal parsed (go/parser) from the generated gin routes file; components.securitySchemes vs the configuration; exit status and written files vs the enforce flag and the undeclared-scheme plants. distinct = distinct (controller-level, method-level, default) security shape triples per route",
 		assume: []string{"the enforced list is read statically from the generated routes file here; its dynamic enforcement is C03's monitor", "an undeclared scheme must yield no spec file; whether the routes file is still written in that case is not judged here"},
 		checkAny: func(res *report.Result, sr *SpecRun, dist *report.Distincter) {
 			p := sr.P
